@@ -4,7 +4,7 @@
     real sessions; identity as a whole is decided by correspondence, see the level note). *)
 From Coq Require Import List ZArith NArith Bool Arith.
 Import ListNotations.
-From RV Require Import Lib.Str Model.DataFile Proofs.DataFileP.
+From RV Require Import Lib.Str Model.DataFile Proofs.DataFileP Model.Identity Proofs.IdentityP Gen.GenIdentity.
 
 (** Histories of sessions: the file is loadable after every session, the follow-up session loads
     exactly what the earlier ones recorded (invocation, iteration, criterion kind, value, run). *)
@@ -54,6 +54,30 @@ Print Assumptions C07_line_roundtrip.
 Theorem C07_unescape_escape : forall s, unescape (escape s) = s.
 Proof. exact unescape_escape. Qed.
 Print Assumptions C07_unescape_escape.
+
+(** Identity of a run.  For each of RunId, Benchmark, BenchmarkSuite, Executor, ExpRunDetails and ExpVariables a
+    table is regenerated from the source on every run (Gen/GenIdentity.v): for every attribute that __eq__
+    compares, the key as_dict writes it under (always, or only when it is not None) and the key from_dict reads
+    the constructor argument stored in that attribute from.  The tables pass the check (same key on both sides,
+    a conditional write only together with an optional read, distinct keys), hence every compared attribute
+    survives as_dict followed by from_dict - whatever value it holds, falsy ones included. *)
+Theorem C07_identity_tables_ok : forallb tbl_ok identity_tables = true.
+Proof. vm_compute. reflexivity. Qed.
+Print Assumptions C07_identity_tables_ok.
+
+Theorem C07_identity_roundtrip :
+  forall (V : Type) t (o : obj V) e,
+    In t identity_tables -> In e t ->
+    from_dict V t (as_dict V t o) (f_name e) = o (f_name e).
+Proof.
+  intros V t o e Ht He. apply identity_roundtrip; [|exact He].
+  pose proof C07_identity_tables_ok as H. rewrite forallb_forall in H. apply H. exact Ht.
+Qed.
+Print Assumptions C07_identity_roundtrip.
+
+(** every class has at least one compared attribute in its table (the statement above is not vacuous) *)
+Example C07_identity_tables_nonempty : forallb (fun t => negb (Nat.eqb (length t) 0)) identity_tables = true /\ length identity_tables = 6.
+Proof. vm_compute. split; reflexivity. Qed.
 
 (** Non-vacuity: three sessions, two runs of one benchmark, ids 0 and 1. *)
 Example C07_example :
